@@ -580,6 +580,13 @@ def r10_plain_references_survive_relurl(ctx, rep):
         rep.ob("relative_url: the first <a> of a text need not have an href", True, "href read with .get()", py.nloc(ru))
 
 
+def r11_relurl_leaves_relative_links(ctx, rep):
+    """a converted [[reference]] is a relative link; shown on another page it goes through `relurl`, which must not rewrite it
+    (shared with C09.R3)"""
+    from . import c09
+    c09._relurl_only_rewrites_absolute_paths(ctx, rep)
+
+
 RULES = [
     RuleSpec("C11.R6", r6_item_anchors, "[[owner:item]] targets: item anchors exist on the owner's page (shared with C09.R8)", floor=16),
     RuleSpec("C11.R1", r1_kinds, "documented kinds are the implemented kinds", floor=45),
@@ -591,4 +598,5 @@ RULES = [
     RuleSpec("C11.R7", r7_item_collections, "item collections searched by find_child are sequences", floor=5),
     RuleSpec("C11.R9", r9_memo, "no cached link element outlives the page it was made for (shared with C17.R7)", floor=1),
     RuleSpec("C11.R10", r10_plain_references_survive_relurl, "an unresolved reference stays harmless in every filter it passes", floor=2),
+    RuleSpec("C11.R11", r11_relurl_leaves_relative_links, "relurl rewrites absolute paths only (shared with C09.R3)", floor=1),
 ]
